@@ -414,6 +414,12 @@ def _truncations(sql):
     return [' '.join(toks[:c]) for c in cuts if 0 < c < n]
 
 
+ERR_HEADS = ['select * from t', 'create ml_engine e from h', 'create model m predict y', 'retrain m',
+             'create database d with engine = "pg"', 'create agent a', 'select a from t join u', 'finetune m from d (select 1)',
+             'create model m from d (select 1) predict y', 'evaluate acc from (select 1)']
+ERR_TAILS = ['using a=1 b=2', 'using a=1, b=2 c', 'using a = {"x": 1} y', 'using a=1 select', 'using a=1 ( b']
+
+
 def build_calls(tier):
     calls, seen = [], set()
 
@@ -438,6 +444,11 @@ def build_calls(tier):
                 'select * from t where', 'select $$$', 'select a from t1 join', 'select * from t1 order', 'insert into']:
         for d in corpus.DIALECTS:
             add({'op': 'parse', 'sql': bad, 'dialect': d})
+    # the same erroneous tail in different statement contexts: the LALR parser reaches one and the same state for all
+    # of them, while what is acceptable next depends on the statement (sensitive to anything remembered per state)
+    for head in ERR_HEADS:
+        for tail in ERR_TAILS:
+            add({'op': 'parse', 'sql': head + ' ' + tail, 'dialect': 'mindsdb', 'family': 'err-tail'})
     names = sorted(CATALOGS)
     for i, x in enumerate(corpus.accepted('mindsdb')):
         if full:
@@ -464,6 +475,8 @@ def has_suggestions(res):
 def call_class(call, res):
     op = call['op']
     ok = res[0] != 'exc'
+    if call.get('family') == 'err-tail':
+        return 'parse-err-tail'
     if op == 'parse':
         return 'parse-ok' if ok else ('parse-fail-suggest' if has_suggestions(res) else 'parse-fail')
     if op == 'plan':
@@ -987,6 +1000,11 @@ def cases(draw):
                   'coarse_strides': draw(st.lists(st.sampled_from([7, 30, 120, 500, 2000]), min_size=1, max_size=6))}
         return {'sub': 'schedule', 'mode': mode, 'threads': threads, 'forced': forced}
     n = draw(st.integers(5, 30))
+    if draw(st.integers(0, 3)) == 0 and _POOL.get('parse-err-tail'):
+        # a history dominated by rejected texts that share their erroneous tail (and so the parser state of the error)
+        calls = [draw(st.sampled_from(_POOL['parse-err-tail'])) if draw(st.integers(0, 4)) else draw(a_call(W_HISTORY, focus))
+                 for _ in range(n)]
+        return {'sub': 'history', 'calls': calls, 'family': 'err-tail'}
     return {'sub': 'history', 'calls': [draw(a_call(W_HISTORY, focus)) for _ in range(n)]}
 
 
